@@ -57,7 +57,19 @@ def valid_value(rng, kind, attr, enc_pool=None):
     elif t == 'int':
         return rng.choice([0, 1, 2, 4, 8])
     elif t == 'dict':
-        return gen.gen_metadata(rng)
+        md = gen.gen_metadata(rng)
+        k = rng.below(10)
+
+        if k < 3:
+            # the shapes real metadata has: nested dicts, lists of dicts
+            md['path'] = {'old': 'a/' + rng.choice(['x', 'y', 'z']),
+                          'new': 'b/' + rng.choice(['x', 'y', 'z'])}
+        elif k < 5:
+            md['items'] = [{'b': 1, 'a': gen.gen_text(rng, 'utf-8', 2),
+                            'c': [1, {'z': 0, 'y': 1}]},
+                           {'k2': None, 'k1': True}]
+
+        return md
     else:
         return {'$bytes': gen.gen_diff_bytes(rng, None).hex()}
 
